@@ -279,6 +279,7 @@ func (e *Exec) step(fn *ssa.Function, fc *FuncContract, st *State, ins ssa.Instr
 			bs = append(bs, e.val(st, b))
 		}
 		e.set(st, x, Val{T: x.Type(), Fn: f, Bind: bs, S: e.allocRef(st)})
+		e.closureRequires(st, x, f, bs)
 		return true, nil
 
 	case *ssa.MapUpdate:
@@ -401,6 +402,7 @@ func (e *Exec) indexAddr(st *State, x *ssa.IndexAddr) {
 	base := e.val(st, x.X)
 	iv := e.val(st, x.Index)
 	i := e.toIdx(st, iv)
+	e.sc.noteIdx(i, e.sc.idx())
 	// an unsigned 64-bit index that does not fit int is out of range anyway
 	lbl := e.srcText(x.Pos())
 	if lbl == "" {
@@ -714,6 +716,10 @@ func (e *Exec) intBinop(st *State, x *ssa.BinOp, a, b Val) {
 		}
 	case token.REM:
 		e.check(st, "div", e.srcText(x.Pos()), not(eq(b.S, bvLit(big.NewInt(0), w))), x.Pos())
+		if _, isC := x.Y.(*ssa.Const); !isC && signed && w == 64 && e.abstractFlag("abstract_rem", x.Type()) {
+			e.setTerm(st, x, e.sremAbstract(a.S, b.S))
+			break
+		}
 		if signed {
 			e.setTerm(st, x, fmt.Sprintf("(bvsrem %s %s)", a.S, b.S))
 		} else {
@@ -1148,9 +1154,26 @@ func (e *Exec) softExit(st *State, pv string) []Exit {
 
 // abstractMul: does the contract of the function under verification ask for
 // multiplications of this Go type to be abstracted (`abstract_mul int64`)?
-func (e *Exec) abstractMul(t types.Type) bool {
+func (e *Exec) abstractMul(t types.Type) bool { return e.abstractFlag("abstract_mul", t) }
+
+// sremAbstract: signed remainder by a non-constant divisor as an uninterpreted
+// function constrained only by 0 <= a, 0 < b ==> 0 <= r < b (`abstract_rem int`).
+// Sound: bvsrem satisfies the constraint, so a proof for every such function covers it.
+func (e *Exec) sremAbstract(a, b string) string {
+	e.eng.spec.need(e.sc, "srem64")
+	r := fmt.Sprintf("(srem64 %s %s)", a, b)
+	k := "srem:" + r
+	if !e.sc.declsrt[k] {
+		e.sc.declsrt[k] = true
+		z := "#x0000000000000000"
+		e.sc.assert(fmt.Sprintf("(=> (and (bvsge %s %s) (bvsgt %s %s)) (and (bvsge %s %s) (bvslt %s %s)))", a, z, b, z, r, z, r, b))
+	}
+	return r
+}
+
+func (e *Exec) abstractFlag(flag string, t types.Type) bool {
 	fc := e.fc
-	if e.curFn != e.fn {
+	if e.curFn != nil && e.curFn != e.fn {
 		fc = e.eng.contractFor(e.curFn)
 		if fc == nil {
 			fc = e.fc
@@ -1159,10 +1182,41 @@ func (e *Exec) abstractMul(t types.Type) bool {
 	if fc == nil {
 		return false
 	}
-	want, ok := fc.Flags["abstract_mul"]
+	want, ok := fc.Flags[flag]
 	if !ok {
 		return false
 	}
 	b, ok := types.Unalias(t).(*types.Basic)
 	return ok && b.Name() == strings.TrimSpace(want)
+}
+
+// closureRequires: a closure under contract keeps its captured cells in the state its
+// `requires` describes (the closure's own ensures re-establish it on every call). Where the
+// closure is created, the clauses over captured variables become obligations of the creator.
+func (e *Exec) closureRequires(st *State, x *ssa.MakeClosure, f *ssa.Function, bs []Val) {
+	if e.curFn != nil && e.curFn != e.fn {
+		return
+	}
+	cc := e.eng.contractFor(f)
+	if cc == nil || len(f.Params) > 0 {
+		return
+	}
+	if _, tr := cc.Flags["trusted"]; tr {
+		return
+	}
+	for k, cl := range cc.Requires {
+		c := e.specEnv(st, nil)
+		c.vars = map[string]Val{}
+		for i, fv := range f.FreeVars {
+			if i < len(bs) {
+				c.vars[fv.Name()] = bs[i]
+			}
+		}
+		c.where = fmt.Sprintf("%s:%d", cl.File, cl.Line)
+		t, err := c.evalBool(cl.Expr)
+		if err != nil {
+			panic(fmt.Sprintf("closure requires of %s at creation: %v", f.Name(), err))
+		}
+		e.checkPost(st, "closure-requires", fmt.Sprintf("%s.%d", f.Name(), k), t, cl.Props, c.where)
+	}
 }
